@@ -50,6 +50,15 @@ CHECKS = {
     "C20": ("exploration", "runtime census monitor with counterfactual ablation + generic size series of krrood-held containers over k/2k/4k iterations",
             "histories create, relate, query and drop instances; weak references must die, nothing may remain in a fresh domain-less query or in the graph's bookkeeping after the sweep, and no krrood-held container (discovered generically) may grow with the iteration count; survivors are attributed by emptying the known query registries",
             "histories without queries are checked strictly; with queries the listed retention finding is recognised only when the survivors die after the ablation", "4/C20"),
+    "C04": ("exploration", "runtime reference-model monitor: graph-isomorphism (bisimulation with identity classes) between random object graphs and from_dao(to_dao(graph)) over freshly generated ORM models",
+            "generated models (interface generated from the current tree per model, one subprocess each) and a hand-written model with alternative mappings / custom column type are fed thousands of random object graphs with sharing, cycles, None, empty collections, subclass instances and extreme scalars; the round-tripped graph must be isomorphic with aliasing preserved and distinct objects kept distinct, also when two roots share the conversion states",
+            "graph generator is driven by the model spec; underscore fields not compared", "4/C04"),
+    "C05": ("exploration", "runtime monitor: DB round trip through a second Session + conservation check on the ORM after_insert event log and per-table row counts",
+            "the same models and graphs are committed to a fresh SQLite database and reloaded in a new Session through every DAO class of the root's chain; from_dao must be isomorphic (collections as sets paired by uid), every distinct object is inserted exactly once and row counts per table match the object counts",
+            "in-memory SQLite created by krrood's create_engine; list order / duplicate entries and the sign of zero are not compared", "4/C05"),
+    "C07": ("translation_validation", "runtime translation validation: each generated EQL program is translated by eql_to_sql, executed on SQLite holding the persisted objects, and compared with in-memory evaluation of an identical query",
+            "random programs over the translatable fragment (and constructs outside it, to observe rejection) are validated one by one on random database contents: same uid set, same the() failure, rejection only via EQLTranslationError",
+            "per-program validation on concrete data, not a proof of the translator; NULL-sensitive comparisons and Optional paths restricted as listed in the evidence assumptions", "4/C07"),
     "C06": ("exploration", "runtime monitor: generated model sources pushed through the real ORMatic pipeline in one subprocess each (generate, import, configure_mappers, create_all), mapper inspection vs expectations from the model spec, cross-process determinism",
             "random models over the documented grammar are generated from the current tree; the module must import, mappers configure and the schema be created; every class must have its DAO with the right base, a column per public scalar/enum/JSON/type field, a relationship per reference/collection, nothing for underscore fields; two generations under different PYTHONHASHSEEDs must be byte-identical",
             "expectations come from the generator's own spec of the model; only documented constructs are generated", "4/C06"),
